@@ -21,7 +21,7 @@ def floors(tier):
     return {'distinct_nontrivial': 3000 if tier == 'quick' else 300000, 'hodge_vs_reference': 500, 'polarity_vs_reference': 200,
             'round_trips': 1500, 'blade_wedge_hodge': 800, 'polarity_raises_degenerate': 30, 'polarity_returns_nondegenerate': 25,
             'rp_vs_reference': 500, 'rp_vs_own_composition': 500, 'pss_identity_of_rp': 500, 'dual_kind_selection': 400,
-            'pss_sq_plus': 15, 'pss_sq_minus': 15, 'odd_oriented_pss_configs': 2}
+            'pss_sq_plus': 15, 'pss_sq_minus': 15, 'registered_duals_compared': 500, 'odd_oriented_pss_configs': 2}
 
 
 def plan(tier, seed):
@@ -206,6 +206,25 @@ def pattern_level(ctx, alg, iso, cfg, name, kx, ky):
                     st2, w2 = ctx.guarded(20, lambda: getattr(a, meth)(kind=kind))
                     if st2 == 'ok' and elem_diff(mv_dict(w2), mv_dict(res[op])):
                         ctx.violation(f'{meth}(kind={kind}) differs from {op}()', cid + [meth, kind], config=cfg)
+    # the duals written inside a registered (compiled) function
+    cid = [name, 'registered-duals', list(kx)]
+    if ctx.want(cid) and ctx.rng.random() < 0.5:
+        x = ops.value_mv(alg, kx, {k: gen.small_frac(ctx.rng, nonzero=True) for k in kx})
+        for meth in ('dual', 'undual', 'hodge', 'unhodge') + (() if degenerate else ('polarity', 'unpolarity')):
+            if meth in ('dual', 'undual') and alg.r > 1:
+                continue
+            ns = {}
+            exec(f'def via_{meth}(a):\n    return a.{meth}()\n', ns)
+            fn = ns[f'via_{meth}']
+            st, out = ctx.guarded(20, lambda: (alg.register(fn)(x), getattr(x, meth)()))
+            if st == 'ok':
+                ctx.count('registered_duals_compared')
+                if elem_diff(mv_dict(out[0]), mv_dict(out[1])):
+                    ctx.violation(f'{meth}() inside a registered function differs from the direct call', cid + [meth], config=cfg, keys_in=[list(kx)],
+                                  registered=show_elem(mv_dict(out[0])), direct=show_elem(mv_dict(out[1])))
+            elif st == 'exc':
+                ctx.note_raised(out, 'registered-' + meth)
+        ctx.case(cid)
     # regressive product
     cid = [name, 'rp', list(kx), list(ky)]
     if ctx.want(cid):
